@@ -23,6 +23,8 @@ const smtPreamble = `(set-option :produce-models true)
 (declare-datatypes ((Slice 0)) (((mk_slice (s_base Int) (s_off Int) (s_len Int) (s_cap Int)))))
 (declare-fun itag (Int) Int)
 (declare-fun refkind (Int) Int)
+(declare-fun root (Int) Int)
+(assert (= (root 0) 0))
 (declare-fun bytes2str ((Array Int Int) Int Int) Str)
 (declare-fun str_empty () Str)
 (assert (= (slen str_empty) 0))
@@ -174,6 +176,7 @@ type Facts struct {
 	lines    []string
 	declared map[string]string // symbol -> signature
 	fresh    int
+	noDefine int
 }
 
 func newFacts() *Facts { return &Facts{declared: map[string]string{}} }
@@ -221,7 +224,7 @@ func (f *Facts) Fresh(prefix, srt string) string {
 
 // Define introduces a name for a term (keeps formulas linear in size).
 func (f *Facts) Define(prefix, srt, term string) string {
-	if len(term) < 40 {
+	if len(term) < 40 || f.noDefine > 0 {
 		return term
 	}
 	n := f.Fresh(prefix, srt)
@@ -353,4 +356,25 @@ func sortedKeys[V any](m map[string]V) []string {
 	}
 	sort.Strings(ks)
 	return ks
+}
+
+// writeQueryQF writes a query whose preamble has no quantified axioms either.
+func writeQueryQF(path string, facts []string, extra ...string) error {
+	var b bytes.Buffer
+	for _, l := range strings.Split(smtPreamble, "\n") {
+		if strings.Contains(l, "(forall ") {
+			continue
+		}
+		b.WriteString(l)
+		b.WriteByte('\n')
+	}
+	for _, l := range facts {
+		b.WriteString(l)
+		b.WriteByte('\n')
+	}
+	for _, l := range extra {
+		b.WriteString(l)
+		b.WriteByte('\n')
+	}
+	return os.WriteFile(path, b.Bytes(), 0o644)
 }
